@@ -1,4 +1,4 @@
-\* template: lib/checks/c05_servermain.py replaces WithMain / StatsThread / AsIs_Spin per group of traces
+\* template: lib/checks/c05_servermain.py replaces WithMain / StatsThread per group of traces
 CONSTANTS
   NConns = 3
   NUp = 4
@@ -10,10 +10,9 @@ CONSTANTS
   StatsThread = TRUE
   OrReacts = TRUE
   EnvLite = FALSE
-  AsIs_Spin = FALSE
   Mut = "none"
 SPECIFICATION TSpec
 CONSTRAINT Mark
 POSTCONDITION Post
-INVARIANTS TCopyLaw TClosedOnEveryPath TCopiersGoneFirst TLoopEndsOnlyOnPerm TNoSpin TNoStuck
+INVARIANTS TCopyLaw TClosedOnEveryPath TCopiersGoneFirst TLoopEndsOnlyOnPerm TNoStuck
 CHECK_DEADLOCK FALSE
